@@ -31,13 +31,20 @@ PROP = {
                   "both flags, every op sequence and every drop point the state, the callbacks op by op and the termination "
                   "are those of the run in which the handle is never dropped (C08_read_only_mode_same_fold); the harness drops "
                   "the handle at random points of the random scripts (all four flag combinations) and exhaustively over a "
-                  "small alphabet (value: depth 5, map: depth 4); hosted channels: handle dropped / handle.stop().",
+                  "small alphabet (value: depth 5, map: depth 4); hosted channels: handle dropped / handle.stop(). "
+                  "Hosted downlinks (map, value and event) are opened through the public builders "
+                  "(HandlerContext::*_downlink_builder; seven construction paths: direct, stateless, reversed setters, "
+                  "with_state first, reversed, stateless setters then with_state, mixed) for all four flag combinations and "
+                  "must give the identical trace on every path (the builder itself is glue and is not modelled); a fraction "
+                  "of the cases uses values of 6-18 KB over 512-byte byte channels so that event bodies span many reads.",
     "level_note": "tokio, the byte channels, the notification/map-message codecs and Recon parsing of i32 are exercised, not "
                   "modelled; keys and values are i32 (BTreeMap order = sort order of the hosted drop_or_take). The agent's "
                   "event loop around a hosted channel is replaced by the harness' loop (await_ready / next_event / run the "
                   "handler), mirroring agent_model's HostedDownlinkEvent handling. Illegal sequences: only absence of panics "
                   "is claimed (the model still agrees with the code on them).",
     "trusted_base": COMMON_TRUST + [
+        "not modelled (exercised, compared across construction paths): the downlink builders and the Stateless/Stateful lifecycle "
+        "plumbing of swimos_agent::agent_lifecycle::utility::downlink_builder and downlink_lifecycle",
         "modelled, not verified: tokio mpsc/select!, byte_channel, DownlinkNotificationEncoder/MapMessageEncoder and the "
         "matching decoders, BTreeMap/HashMap as finite maps, the lifecycle builder plumbing (BlockingHandler etc.)",
         "the harness' logging lifecycles (swimos_downlink closures; swimos_agent On* trait impls built from SideEffect)",
